@@ -20,7 +20,7 @@ def hx(s):
     return b.hex() or '-'
 
 
-def run_unit(ops):
+def run_unit(ops, model_too=True):
     """run the same op lines through the real code and the model; returns (impl lines, model lines)"""
     ok, err, dt = build_harness()
     if not ok:
@@ -35,6 +35,9 @@ def run_unit(ops):
     if p.returncode != 0 or len(impl) != len(ops):
         # crashed: mark the rest
         impl = impl + ['CRASH rc=%s' % p.returncode] * (len(ops) - len(impl))
+    if not model_too:
+        os.remove(f)
+        return impl, []
     m = subprocess.run([PEGVERIF, 'unit', f], stdout=subprocess.PIPE, stderr=subprocess.PIPE, text=True, timeout=1800)
     if m.returncode != 0:
         raise RuntimeError('model driver failed: ' + m.stderr[-1000:])
@@ -119,6 +122,8 @@ def run_C11(seed, tier):
     ops = ['pretty %s %d %s' % (hx(t), p, hx(f) if f is not None else '-') for t, p, f in cases]
     impl, model = run_unit(ops)
     plain = run_nocolor(ops)
+    # colours forced on, escape sequences stripped again by the harness: same text, same alignment
+    coloured, _ = run_unit(['prettyc' + o[len('pretty'):] for o in ops], model_too=False)
     res = dict(evaluations=len(cases), nontrivial=set(), samples=[], strict=[], prop=[], distribution=collections.Counter())
     for (t, p, f), i, m in zip(cases, impl, model):
         exp = expected_pretty(t, p, f)
@@ -141,6 +146,17 @@ def run_C11(seed, tier):
             rp2 = dict(rp)
             rp2['what'] = 'PrettyParseError output: model vs implementation'
             res['strict'].append(rp2)
+    res['distribution']['outputs with colours forced on compared (escape sequences stripped)'] = len(coloured)
+    for (t, p, f), i, m in zip(cases, coloured, model):
+        res['evaluations'] += 1
+        if i != m:
+            rp = dict(kind='unit', what='', op='prettyc', text=t, text_hex=hx(t), position=p, file=f, impl=i, model=m, build='colours on')
+            exp = expected_pretty(t, p, f)
+            got = bytes.fromhex(i[2:]).decode(errors='replace') if i.startswith('P ') else i
+            rp['what'] = ('with colours enabled, the pretty error does not point at line/column of the position' if got != exp
+                          else 'PrettyParseError output (colours on): model vs implementation')
+            rp['expected'], rp['got'] = exp, got
+            (res['prop'] if got != exp else res['strict']).append(rp)
     # the build without the `colored` feature must print the same text
     res['distribution']['outputs of the build without the colored feature compared'] = len(plain)
     for (t, p, f), i, m in zip(cases, plain, model):
@@ -249,6 +265,8 @@ def run_matchers(seed, tier, pid):
 # ------------------------------------------------------------------------------------------- C18 fsdiff
 GRAMMARS_OK = ["@export\nA = 'x';\n", "@export\nA = 'y';\n", "@export\nA = 'x' b:B;\nB = 'b';\n", "@export\nA = {'x'};\n# c\n",
                "@export\nA = 'x';\n# mv48hbz4\n", "@export\nA = 'y';\n# pxz11qsd\n"]
+# same characters, different line breaks, different meaning (the comment swallows `b:B` in the second one)
+NEWLINE_PAIR = ("@export\nA = 'x' # c\n b:B;\nB = 'b';\n", "@export\nA = 'x' # c b:B\n;\nB = 'b';\n")
 GRAMMARS_BAD = ["@export\nA = 'x'", "A = ;;;", "@export A = !b:B; B='x';", "", "@export\nA = >Missing;\n"]
 PREFIXES = ['', 'use a;', 'use a;\nuse b;', 'use a;\n', '// p', 'pub struct X;', 'use a;\nuse b;\nuse c;']
 # prefixes for the `.format()` mode: rustfmt keeps the first five as they are and rewrites the last two
@@ -281,6 +299,8 @@ def fs_histories(seed, tier):
     # known finding K1 (two grammars with equal CRC-32) is replayed deterministically
     hs.append(('file', ['GK0', 'R', 'GK1', 'R']))
     hs.append(('file', ['G0', 'PK0', 'R', 'PK1', 'R']))
+    for mode in ('file', 'dir', 'fmt'):
+        hs.append((mode, ['GN0', 'R', 'GN1', 'R', 'R', 'GN0', 'R']))
     while len(hs) < n:
         k = rng.randint(2, 12)
         ops = []
@@ -328,6 +348,8 @@ def fs_lines(hs):
                 lines.append('G NONE')
             elif o.startswith('GK'):
                 lines.append('G ' + hx(K1_PAIR[int(o[2:])]))
+            elif o.startswith('GN'):
+                lines.append('G ' + hx(NEWLINE_PAIR[int(o[2:])]))
             elif o[0] == 'G':
                 lines.append('G ' + hx(GRAMMARS_OK[int(o[1:])]))
             elif o[0] == 'B':
@@ -348,7 +370,7 @@ def run_fs(hs, workname):
     d = tempfile.mkdtemp(prefix='pvfs-')
     try:
         # the compiler as a table: every grammar text through the real library route
-        texts = GRAMMARS_OK + GRAMMARS_BAD + list(K1_PAIR)
+        texts = GRAMMARS_OK + GRAMMARS_BAD + list(K1_PAIR) + list(NEWLINE_PAIR)
         lst = os.path.join(d, 'list.txt')
         with open(lst, 'w') as f:
             for i, t in enumerate(texts):
